@@ -375,6 +375,15 @@ def decode_measurement_metadata(md: dict) -> List[Tuple[str, List[int]]]:
     return out
 
 
+def encode_measurement_metadata(pairs: Sequence[Tuple[str, Sequence[int]]]) -> Dict[str, str]:
+    """Documented encoding (inverse of decode_measurement_metadata)."""
+    full = RECORD_SEP.join(f"{k}{UNIT_SEP}{','.join(str(int(t)) for t in ts)}" for k, ts in pairs)
+    chunks = [full[i:i + MAX_CHUNK] for i in range(0, len(full), MAX_CHUNK)]
+    if len(chunks) > MAX_CHUNKS:
+        raise PayloadRejected("measurement metadata too long")
+    return {f"measurement{i}": c for i, c in enumerate(chunks)}
+
+
 def _self_test():
     from mc.ref import embed as E
 
@@ -405,6 +414,7 @@ def _self_test():
     assert le_key_to_bits(1, 3) == (1, 0, 0) and bits_to_le_key((0, 1, 1)) == 6 and be_index_to_bits(1, 3) == (0, 0, 1)
     md = {"measurement0": "a" * 38 + UNIT_SEP + "1", "measurement1": ",0" + RECORD_SEP + "b" + UNIT_SEP + "2", "shots": "5"}
     assert decode_measurement_metadata(md) == [("a" * 38, [1, 0]), ("b", [2])]
+    assert encode_measurement_metadata([("a" * 38, [1, 0]), ("b", [2])]) == {k: v for k, v in md.items() if k != "shots"}
 
 
 _self_test()
